@@ -16,6 +16,7 @@
 """Model Modifier class that produce the final quantized TFlite model."""
 
 import copy
+import os
 
 import numpy as np
 
@@ -72,6 +73,16 @@ class ModelModifier:
     )
     self._update_signature_defs(quantized_model, signature_io_positions)
     constant_buffer_size = self._process_constant_map(quantized_model)
+    # Verification hook (off unless AI_EDGE_QUANTIZER_VERIF=1): lets small models
+    # be pushed through the large-model serialization path.
+    if os.environ.get('AI_EDGE_QUANTIZER_VERIF') == '1' and (
+        'AI_EDGE_QUANTIZER_VERIF_LARGE_MODEL_THRESHOLD' in os.environ
+    ):
+      if constant_buffer_size > int(
+          os.environ['AI_EDGE_QUANTIZER_VERIF_LARGE_MODEL_THRESHOLD']
+      ):
+        return self._serialize_large_model(quantized_model)
+      return self._serialize_small_model(quantized_model)
     if constant_buffer_size > 2**31 - 2**20:
       return self._serialize_large_model(quantized_model)
     else:
